@@ -53,6 +53,23 @@ let handle line =
      | CNoCand (g, nm, sp) ->
        Printf.sprintf "NOCAND %s %d %s G %s" (cl_hex nm) (List.length sp) (String.concat " " (List.map print_clause sp)) (print_graph e g) ^ trace g
      | CFatal er -> "FATAL " ^ err_class er ^ " " ^ err_detail er)
+  | "S" ->
+    let fuel = nat_of_int (next_int st) in
+    let e = next_env st in
+    let rs = next_list st (fun st -> let ap = next_bool st in let u = next_universe st in (u, ap)) in
+    let inputs = next_list st next_dist in
+    let cons = next_opt st (fun st -> next_list st next_dist) in
+    let remove_cons = next_bool st in
+    let maxdg = next_optnat st in
+    let u = flatten_stack rs in
+    (match perform_compile_stack fuel e rs inputs cons remove_cons maxdg with
+     | COk (g, roots) ->
+       Printf.sprintf "OK %s ROOTS %d %s" (print_graph e g) (List.length roots) (String.concat " " (List.map (key_of g) roots)) ^ " " ^ print_emitted e g roots
+       ^ Printf.sprintf " CHK %s %s %s %s" (b2s (pins_ok_b e u g)) (b2s (coherent_b g roots)) (b2s (closed_b g roots)) (b2s (explain_honest_b e g roots))
+       ^ trace g
+     | CNoCand (g, nm, sp) ->
+       Printf.sprintf "NOCAND %s %d %s G %s" (cl_hex nm) (List.length sp) (String.concat " " (List.map print_clause sp)) (print_graph e g) ^ trace g
+     | CFatal er -> "FATAL " ^ err_class er ^ " " ^ err_detail er)
   | "Q" ->
     let cs = next_list st next_clause in
     (match is_possible cs with PTrue -> "T" | PFalse -> "F" | PValueError -> "V")
